@@ -85,6 +85,8 @@ def explore(ctx):
             if rng.chance(1, 5):
                 s = s[: rng.below(len(s) + 1)]          # truncated stream (also C05)
             n = len(s)
+            if n == 0:
+                continue
             lines.append("dec d%d %s stream=%s chunks=- mode=rest end=eof nt=0" % (k, frames.ENV, s.hex())); k += 1
             lines.append("dec d%d %s stream=%s chunks=- mode=one end=eof nt=1" % (k, frames.ENV, s.hex())); k += 1
             cuts = range(1, n) if n <= 400 else [rng.below(n - 1) + 1 for _ in range(400)]
@@ -95,6 +97,71 @@ def explore(ctx):
                     a = 1 + rng.below(n - 2)
                     b = 1 + rng.below(n - a - 1) if n - a - 1 > 0 else 1
                     lines.append("dec d%d %s stream=%s chunks=%d,%d mode=rest end=eof nt=1" % (k, frames.ENV, s.hex(), a, b)); k += 1
+        # large frames: undecoded remainders and arguments bigger than the 4096-byte bufio buffer and than 64 KiB
+        nbig = {"quick": 12, "thorough": 120, "search": 40}[tier]
+        for _ in range(nbig):
+            ch = mp.Chooser(rng, 1, 3)
+            big = rng.choice([4090, 4097, 5000, 9000, 70000])
+            parts = []
+            for _ in range(2 + rng.below(3)):
+                kind = rng.below(5)
+                if kind == 0:    # unknown method with a big argument: nothing of the argument is decoded
+                    parts.append(frames.content([0, rng.below(100), ("s", rng.choice(frames.UNKNOWN)), ("b", rng.bytes(8) * (big // 8))], ch))
+                elif kind == 1:  # valid message followed by big padding inside the declared length
+                    parts.append(frames.content([3, rng.below(100), ("s", b"p.m")], ch) + rng.bytes(4) * (big // 4))
+                elif kind == 2:  # big valid argument
+                    parts.append(frames.content([2, ("s", b"p.n"), ("b", rng.bytes(8) * (big // 8))], ch))
+                elif kind == 3:  # stray response with a big result
+                    parts.append(frames.content([1, 12345, None, ("s", b"x" * big)], ch))
+                else:
+                    parts.append(frames.content([3, rng.below(100), ("s", b"z")], ch))
+            fr = [frames.frame(c, ch) for c in parts]
+            s = b"".join(fr)
+            n = len(s)
+            # resynchronisation, implementation against itself: the stream from frame i on, read alone
+            for i in range(1, len(fr)):
+                suf = b"".join(fr[i:])
+                lines.append("dec d%d %s stream=%s chunks=- mode=rest end=eof nt=0 suffixof=%s skip=%d" % (k, frames.ENV, suf.hex(), s.hex()[:40] + str(n), i)); k += 1
+            lines.append("dec d%d %s stream=%s chunks=- mode=rest end=eof nt=0" % (k, frames.ENV, s.hex())); k += 1
+            lines.append("dec d%d %s stream=%s chunks=- mode=one end=eof nt=1" % (k, frames.ENV, s.hex())); k += 1
+            for _ in range(6):
+                cs = [1 + rng.below(max(1, n // 3)) for _ in range(3)]
+                lines.append("dec d%d %s stream=%s chunks=%s mode=rest end=eof nt=1" % (k, frames.ENV, s.hex(), ",".join(map(str, cs)))); k += 1
     triples, tie = C.run_both(ctx, "TestVerifC04", lines, go_timeout=900)
-    stats = dict(cases=len(lines), unspecified=sum(1 for t in triples if " unspec" in t[1]))
+    # predicates on the implementation's observations alone (no model involved):
+    #  (1) every chunking of the same stream gives the same outcomes and consumption
+    #  (2) a stream read from its i-th frame on gives the tail of the outcomes of the whole stream
+    def field(line, name):
+        for tok in line.split(" "):
+            if tok.startswith(name + "="):
+                return tok[len(name) + 1:]
+        return ""
+    by_stream = {}
+    for c, v, o in triples:
+        if c.startswith("dec ") and o:
+            by_stream.setdefault(field(c, "stream"), []).append((c, v, o))
+    extra = []
+    for st, lst in by_stream.items():
+        base = field(lst[0][2], "outs")
+        for c, v, o in lst[1:]:
+            if field(o, "outs") != base:
+                extra.append((c, "PROPFAIL %s sig=chunking-dependent outcomes differ between two chunkings of one stream: %s vs %s"
+                              % (c.split(" ")[1], field(o, "outs")[:200], base[:200]), o))
+                break
+    whole = {}
+    for c, v, o in triples:
+        if c.startswith("dec ") and o and "suffixof=" not in c:
+            st = field(c, "stream")
+            whole[st[:40] + str(len(st) // 2)] = field(o, "outs").split("|")
+    for c, v, o in triples:
+        if "suffixof=" in c and o:
+            w = whole.get(field(c, "suffixof"))
+            i = int(field(c, "skip"))
+            got = field(o, "outs").split("|")
+            if w is not None and len(w) > i and all(not x.startswith("err:") for x in w[:i]) and w[i:] != got:
+                extra.append((c, "PROPFAIL %s sig=no-resync frames after #%d decode differently when read after the earlier frames (%s) than alone (%s)"
+                              % (c.split(" ")[1], i, "|".join(w[i:])[:200], "|".join(got)[:200]), o))
+    triples += extra
+    stats = dict(cases=len(lines), unspecified=sum(1 for t in triples if " unspec" in t[1]),
+                 streams=len(by_stream), chunkings_compared=sum(len(v) for v in by_stream.values()))
     return dict(verdicts=triples, tie=tie, stats=stats)
